@@ -153,6 +153,27 @@ ROUND3.update({
              "caught"),
 })
 
+ROUND3.update({
+    "C01e": ("RoiSubsetState3d.copy no longer carries the pre-transform over",
+             "a three-attribute region selection with a pre-transform, copied (inside a composite, through an edit mode, pasted)",
+             "missed: the new n-attribute / 3-attribute leaves had no pre-transform; added"),
+    "C05e": ("update_values_from_data clears the memo caches before it removes the components that the new data lacks",
+             "a refresh that drops a component while a hub listener re-reads a memoised selection on the messages sent in between",
+             "missed: nothing listened during updates and no refresh dropped a component; a listener that re-reads every mask on every hub message and a droppable spare component added - which also exposed the same pattern in the link manager on the unchanged tree (section 5.2)"),
+    "C06d": ("Hub.delay_callbacks detaches (and drops) the queue whenever any nested block closes",
+             "an outer delay block containing append/remove followed by new_subset_group / remove_subset_group (which open their own block), with another group present",
+             "caught"),
+    "C08d": ("Projected3dROI.contains3d builds the homogeneous vertex array with x's dtype",
+             "an integer x array with non-integral float y / z",
+             "missed: all coordinates were float arrays; one coordinate is now given as an integer array in 2 of 5 cases"),
+    "C10d": ("HistogramLayerState.histogram normalises the cached counts in place (np.asarray instead of astype)",
+             "normalize on, read, normalize off (or cumulative), read - with range and bins unchanged in between",
+             "missed by C10 (each step drew a new range, which resets the cache; C05 `histogram_layer_state` catches it): half of the steps now keep range and bins"),
+    "C12d": ("_load_data_collection (DataCollection protocols 1-3) treats a link as external only if all, not any, of its inputs are foreign",
+             "an old-format collection record with a multi-input link whose inputs span datasets and whose output lies in one of them",
+             "missed: no such link was generated; link kind `mixed` added to the session generator"),
+})
+
 sweep = {}
 if len(sys.argv) > 1 and os.path.exists(sys.argv[1]):
     for line in open(sys.argv[1]):
